@@ -3,6 +3,7 @@ package engines
 import (
 	"archive/tar"
 	"bytes"
+	"context"
 	"crypto/sha256"
 	"encoding/hex"
 	"fmt"
@@ -27,6 +28,9 @@ type E1Job struct {
 	Hist    []ops.Op   `json:"hist"`
 	Oracles []string   `json:"oracles"`
 	AllJ    bool       `json:"allj,omitempty"` // C07: all prefixes j instead of {0, n-1, n}
+	HInit   string     `json:"hinit,omitempty"`  // handle level: initial content spec of /f, or "<missing>"
+	HFlags  int        `json:"hflags,omitempty"` // handle level: OpenFile flags
+	Level   string     `json:"level,omitempty"` // "" = afero level (hierarchical reference), "archive" = Operations level (flat reference)
 }
 
 type E1Res struct {
@@ -37,9 +41,12 @@ type E1Res struct {
 	Viol     []Violation `json:"viol,omitempty"`
 	Info     ExecInfo    `json:"info"`
 	Harness  string      `json:"harness,omitempty"` // harness-level failure (never a verdict)
+	DivergedWhy string   `json:"diverged_why,omitempty"`
 	TapeLen  int         `json:"tape_len"`
 	Records  int         `json:"records"`
 }
+
+var ctxBG = context.Background()
 
 func has(list []string, s string) bool {
 	for _, x := range list {
@@ -326,6 +333,9 @@ func hashKey(parts ...string) string {
 
 // RunE1 executes one E1 job.
 func RunE1(env *Env, job *E1Job) *E1Res {
+	if job.Level == "handle" {
+		return RunE6(env, job)
+	}
 	res := &E1Res{}
 	ph := &Phase{Name: "setup"}
 	viol := func(prop, class, detail string) {
@@ -400,10 +410,6 @@ func RunE1(env *Env, job *E1Job) *E1Res {
 		ctx.scan = rig.Scan(ctx.postTape)
 		res.Records = len(ctx.scan.Recs)
 
-		// C02: also decides divergence
-		ph.Name = "oracle C02"
-		res.Diverged = ctx.oracleC02()
-
 		ph.Name = "oracle rows"
 		liveRows, err := rig.DumpIndex(st.Index)
 		if err != nil {
@@ -411,6 +417,18 @@ func RunE1(env *Env, job *E1Job) *E1Res {
 			return
 		}
 		ctx.liveRows = liveRows
+
+		// C02: also decides divergence
+		ph.Name = "oracle C02"
+		if job.Level == "archive" {
+			var why string
+			res.Diverged, why = ctx.divergedFlat()
+			if res.Diverged {
+				res.DivergedWhy = why
+			}
+		} else {
+			res.Diverged = ctx.oracleC02()
+		}
 
 		rebuiltKey := ""
 		if has(job.Oracles, "C01") || has(job.Oracles, "C07") || has(job.Oracles, "C04") || has(job.Oracles, "C12") || has(job.Oracles, "C17") {
@@ -545,18 +563,21 @@ func (c *stepCtx) oracleC02() bool {
 				post = append(post, e)
 			}
 		}
-		// creation under a parent may legitimately appear only for touched paths; MkdirAll creates ancestors
+		// MkdirAll creates the missing ancestors of its argument: those are touched too
 		if c.op.K == "mkdirall" {
-			filter := func(l []rig.Entry) []rig.Entry {
-				o := l[:0]
-				for _, e := range l {
-					if role(e.Path, c.op) != "ancestor-of-src" {
-						o = append(o, e)
-					}
-				}
-				return o
+			inPre := map[string]bool{}
+			for _, e := range pre {
+				inPre[e.Path] = true
 			}
-			pre, post = filter(pre), filter(post)
+			P := model.Clean(c.op.P)
+			o := post[:0]
+			for _, e := range post {
+				if !inPre[e.Path] && strings.HasPrefix(P, e.Path+"/") {
+					continue
+				}
+				o = append(o, e)
+			}
+			post = o
 		}
 		shape, detail := diffTrees(post, pre, true, roleOf)
 		if len(shape) > 0 {
